@@ -1642,6 +1642,9 @@ TRUSTED = [
     "T1: finite sums regroup over a partition / telescope over prefix sums",
     "SimpleBatcher contract (partition into consecutive batches; shuffle=False, val_ratio=0): proved in contracts/C09.py, used here at the call site",
     "dataclass BrightFieldContext stores its keyword arguments; validate_tensor returns its tensor argument; tqdm progress bar has no effect",
+    "torch.fft.fftshift / ifftshift = the index maps out[i] = in[(i -/+ n//2) mod n] on every axis; torch.where(mask) returns coordinate vectors whose min / max are the "
+    "extremes of the True entries (both attained); python slice clipping semantics of the engine (mask cropping contract)",
+    "validate_aberration_coefficients returns a fresh dict (alias canonicalisation itself is C12's subject); python dict / set `|=` mutates the left operand",
     "loop annotations PASS_ELEM (row type of the buffer after pass 1 / pass 2) are invariants checked on the arbitrary iteration",
     "pyvc engine (AST interpreter), z3, cvc5",
 ]
@@ -1650,9 +1653,9 @@ ASSUMPTIONS = [
     "A5 the DFT is linear and acts independently on each leading-axis row (fft2/ifft2 over the last two axes)",
     "A6 torch indexing / nonzero / where semantics as typed in c04_models",
     "masks are non-empty (num_bf >= 1), sub-masks are subsets of the construction mask (docstring of reconstruct), max_batch_size >= 1, upsampling_factor >= 1 integer",
-    "object invariant ASSUMED by the typing of reconstruct (established by __init__, which is NOT under contract): stack row r was recorded at the r-th pixel "
-    "(row-major) of self.bf_mask and _vbf_fourier has the type proved for _preprocess; the bounded cropping check shows that __init__ breaks the first half for "
-    "masks not centred on k=0 when crop_bf_mask=True (known finding, proposed_fixes/C04_1.diff); _crop_corner_centered_mask is only checked at run time",
+    "object invariant ASSUMED by the typing of reconstruct (established by __init__, whose body is NOT under contract): stack row r was recorded at the r-th pixel "
+    "(row-major) of self.bf_mask and _vbf_fourier has the type proved for _preprocess; the one non-trivial step of __init__ for this invariant, "
+    "_crop_corner_centered_mask, IS under a deductive contract (every mask pixel kept at its signed detector frequency, for all sizes / masks / paddings >= 0)",
     "quick tier: the five independent options of reconstruct (hyper-parameter source, upsampling None/int, max_batch_size None/int, low-pass, high-pass) are explored as a "
     "strength-2 covering array (6 rows) for every kernel x mask x flip combination; the thorough tier explores their full product (same obligation names, 14158 instances)",
     "analytic parallax limits (zero aberration, defocus / astigmatism shift) are NOT proved: they need the DFT shift theorem inside the tensor code; bounded run-time contracts only",
